@@ -633,6 +633,10 @@ func (t *Terminal) handleKey(key rune) (line []string, ok bool) {
 				return
 			}
 		}
+		if key == '\t' {
+			// a typed TAB separates words like a blank does
+			key = ' '
+		}
 		if !isPrintable(key) {
 			return
 		}
